@@ -505,3 +505,124 @@ def calls_reaching(F, f, targets, depth=2):
         if any(reaches(n, depth) for n in callee_names(t)):
             out.append((b, t))
     return out
+
+
+def resolve_place(f, pl):
+    """Resolve `(*_r)...` where `_r` is a reference local to the place it refers to."""
+    pr = pl.get("p", [])
+    if pr and pr[0][0] == "deref":
+        src = ref_source_place(f, pl["l"])
+        if src is not None and src.get("p"):
+            return {"l": src["l"], "p": list(src["p"]) + list(pr[1:])}
+    return pl
+
+
+def field_tests(f, field, family="option"):
+    """Switches on the discriminant of a place ending in `.field` (directly or through a
+    reference local): list of Test."""
+    from .analysis import _SUCCESS_DISCR
+    out = []
+    for b in sorted(f.reachable(0)):
+        t = f.blocks[b]["t"]
+        if t["k"] != "switch":
+            continue
+        l = op_local(t["d"])
+        if l is None:
+            continue
+        for s in f.blocks[b]["s"]:
+            if s["k"] == "a" and s["lhs"]["l"] == l and s["rv"]["k"] == "discr":
+                pl = resolve_place(f, s["rv"]["p"])
+                names = [e[2] for e in pl.get("p", []) if e[0] == "f"]
+                if names and names[-1] == field:
+                    su, fa = switch_edges(f, b, _SUCCESS_DISCR[family])
+                    out.append(Test(b, su, fa, 0, "discr:" + family, False, l))
+    return out
+
+
+def cmp_tests(f, ops=("Gt", "Ge", "Lt", "Le", "Eq", "Ne"), pred=None):
+    """Comparison statements `x = Op(a, b)` and the tests of their boolean result:
+    list of (bb, stmt, tests)."""
+    out = []
+    for b, i, s in f.stmts():
+        if s["k"] == "a" and s["rv"]["k"] == "bin" and s["rv"]["op"] in ops and not s["lhs"].get("p"):
+            if pred is None or pred(s["rv"]):
+                ts, _ = value_tests(f, [s["lhs"]["l"]], family="bool")
+                out.append((b, s, ts))
+    return out
+
+
+def field_writes(f, field, owner=None):
+    """Assignments to a place ending in `.field`: list of (bb, idx, stmt)."""
+    out = []
+    for b, i, s in f.stmts():
+        if s["k"] != "a":
+            continue
+        pr = [e for e in s["lhs"].get("p", []) if e[0] == "f"]
+        if pr and pr[-1][2] == field and (owner is None or pr[-1][3] == owner):
+            out.append((b, i, s))
+    return out
+
+
+# ------------------------------------------------------------------------------------------
+# match-arm tables (DESIGN §3.8)
+# ------------------------------------------------------------------------------------------
+
+def enum_switches(F, f, enum_path):
+    """Switches on the discriminant of a value of workspace enum `enum_path`:
+    list of (bb, place, {variant name: target bb}, otherwise bb)."""
+    adt = F.adt(enum_path)
+    by_discr = {int(v["discr"]): v["name"] for v in adt["variants"]}
+    out = []
+    for b in sorted(f.reachable(0)):
+        t = f.blocks[b]["t"]
+        if t["k"] != "switch":
+            continue
+        l = op_local(t["d"])
+        if l is None:
+            continue
+        for s in f.blocks[b]["s"]:
+            if s["k"] == "a" and s["lhs"]["l"] == l and s["rv"]["k"] == "discr":
+                pl = s["rv"]["p"]
+                ty = place_ty(F, f, pl) or ""
+                ty = ty.lstrip("&")
+                if ty.startswith("mut "):
+                    ty = ty[4:]
+                if ty == enum_path or ty.startswith(enum_path + "<"):
+                    arms = {}
+                    for v, tb in t["targets"]:
+                        if int(v) in by_discr:
+                            arms[by_discr[int(v)]] = tb
+                    out.append((b, pl, arms, t["otherwise"]))
+    return out
+
+
+def arm_region(f, switch_bb, target):
+    """Blocks that belong to the arm entered through edge switch_bb -> target: reachable from
+    target and not reachable from entry when that edge is removed."""
+    without = f.reachable(0, removed_edges={(switch_bb, target)})
+    return {b for b in f.reachable(target) if b not in without}
+
+
+def arm_regions(f, switch_bb, arms, otherwise=None):
+    """Arms that share a target share a region: {frozenset(variants): region}."""
+    by_target = {}
+    for v, tb in arms.items():
+        by_target.setdefault(tb, set()).add(v)
+    out = {}
+    for tb, vs in by_target.items():
+        # remove *all* edges into tb from the switch (one edge in the CFG)
+        out[frozenset(vs)] = arm_region(f, switch_bb, tb)
+    return out
+
+
+def aggregates_in(f, blocks, adt=None):
+    out = []
+    for b in sorted(blocks):
+        for i, s in enumerate(f.blocks[b]["s"]):
+            if s["k"] == "a" and s["rv"]["k"] == "agg" and s["rv"]["ak"] == "adt" and (adt is None or s["rv"]["adt"] == adt):
+                out.append((b, i, s["rv"]))
+    return out
+
+
+def calls_in(f, blocks):
+    return [(b, f.blocks[b]["t"]) for b in sorted(blocks) if f.blocks[b]["t"]["k"] == "call"]
